@@ -200,10 +200,10 @@ OPS = ['add_node', 'add_dependency', 'remove_node', 'remove_dependency', 'merge'
        'reduction', 'closure']
 
 
-def apply_op(ex, g, nodes, edges, step, pool_extra):
+def apply_op(ex, g, nodes, edges, step, pool_extra, forced=None):
     """apply one solver-chosen operation to g, update the model, assert; returns (nodes, edges)"""
     from valjean.cosette.depgraph import DepGraph, DepGraphError
-    op = pick(ex, OPS, f'op{step}')
+    op = forced if forced is not None else pick(ex, OPS, f'op{step}')
     ex.note(f'op{step}', op)
     cand = list(nodes) + list(pool_extra)
     lab = op
@@ -336,7 +336,7 @@ def apply_op(ex, g, nodes, edges, step, pool_extra):
     return nodes, edges, True
 
 
-def make_harness(n, self_loops, steps):
+def make_harness(n, self_loops, steps, first_op=None):
     def harness(ex):
         pool = [N(f'n{i}') for i in range(n)]
         extra = [N('x0'), N('x1')]
@@ -344,7 +344,7 @@ def make_harness(n, self_loops, steps):
         if not observers_agree(ex, g, nodes, edges, 'initial-state'):
             return
         for step in range(steps):
-            nodes, edges, cont = apply_op(ex, g, nodes, edges, step, extra)
+            nodes, edges, cont = apply_op(ex, g, nodes, edges, step, extra, forced=first_op if step == 0 else None)
             if not cont:
                 return
             if not observers_agree(ex, g, nodes, edges, f'after-{ex.notes.get(f"op{step}", "op")}'):
@@ -488,7 +488,7 @@ def make_rlist(n, steps):
 
 def _job(kind, timeout_ms, seed=0, **p):
     if kind == 'ops':
-        h = make_harness(p['n'], p['self_loops'], p['steps'])
+        h = make_harness(p['n'], p['self_loops'], p['steps'], p.get('first_op'))
     elif kind == 'flatten':
         h = make_flatten(p['n_outer'], p['n_inner'], p['deep'])
     else:
@@ -508,7 +508,8 @@ def jobs(tier):
     else:
         plan = [('ops', dict(n=0, self_loops=False, steps=2)), ('ops', dict(n=1, self_loops=True, steps=2)),
                 ('ops', dict(n=2, self_loops=True, steps=2)), ('ops', dict(n=3, self_loops=True, steps=1)),
-                ('ops', dict(n=3, self_loops=False, steps=2)), ('ops', dict(n=4, self_loops=False, steps=1)),
+                ] + [('ops', dict(n=3, self_loops=False, steps=2, first_op=op)) for op in OPS] + [     # sharded by the first operation
+                ('ops', dict(n=4, self_loops=False, steps=1, first_op=op)) for op in OPS] + [
                 ('flatten', dict(n_outer=2, n_inner=0, deep=False)), ('flatten', dict(n_outer=2, n_inner=1, deep=False)),
                 ('flatten', dict(n_outer=2, n_inner=2, deep=False)), ('flatten', dict(n_outer=3, n_inner=0, deep=False)),
                 ('flatten', dict(n_outer=3, n_inner=1, deep=False)), ('flatten', dict(n_outer=3, n_inner=2, deep=False)),
